@@ -1134,11 +1134,11 @@ macro_rules! c18_gen {
         }
     };
 }
-//@ h=c18_gen_short props=C18,C17 cfgs=K1 tier=q t=1800 | funcs: Generator<Short>::{new, update, processed_len, clone, finalize_with_options, finalize} (public wrapper types) | bound: pieces of 6 and 3 bytes (any content), all option settings: allocator never reached, no panic | stubs: allocator entry points -> assert!(false); select_nth_unstable (core, cannot allocate) -> any ordered quartiles; mapping/increment logging stubs; FuzzyHashLengthEncoding::new contract
+//@ h=c18_gen_short props=C18,C17 cfgs=K1 tier=q t=1800 native=native_c18_gen | funcs: Generator<Short>::{new, update, processed_len, clone, finalize_with_options, finalize} (public wrapper types) | bound: pieces of 6 and 3 bytes (any content), all option settings: allocator never reached, no panic | stubs: allocator entry points -> assert!(false); select_nth_unstable (core, cannot allocate) -> any ordered quartiles; mapping/increment logging stubs; FuzzyHashLengthEncoding::new contract
 c18_gen!(c18_gen_short, crate::hashes::Short, 6, 48, 52);
-//@ h=c18_gen_longl props=C18,C17 cfgs=K1 tier=q t=1800 | funcs: Generator<LongWithLongChecksum>::{new, update, processed_len, clone, finalize_with_options, finalize} | bound: pieces of 5 and 3 bytes, all option settings | stubs: as c18_gen_short
+//@ h=c18_gen_longl props=C18,C17 cfgs=K1 tier=q t=1800 native=native_c18_gen | funcs: Generator<LongWithLongChecksum>::{new, update, processed_len, clone, finalize_with_options, finalize} | bound: pieces of 5 and 3 bytes, all option settings | stubs: as c18_gen_short
 c18_gen!(c18_gen_longl, crate::hashes::LongWithLongChecksum, 5, 256, 260);
-//@ h=c18_gen_normal props=C18,C17 cfgs=K1 tier=q t=1800 | funcs: Generator<Normal>::{new, update, processed_len, clone, finalize_with_options, finalize} | bound: pieces of 7 and 3 bytes, all option settings | stubs: as c18_gen_short
+//@ h=c18_gen_normal props=C18,C17 cfgs=K1 tier=q t=1800 native=native_c18_gen | funcs: Generator<Normal>::{new, update, processed_len, clone, finalize_with_options, finalize} | bound: pieces of 7 and 3 bytes, all option settings | stubs: as c18_gen_short
 c18_gen!(c18_gen_normal, crate::hashes::Normal, 7, 128, 132);
 
 // ------------------------------------------------------------------ native confirmation of F
@@ -1254,3 +1254,46 @@ native_f!(native_f_normall, GNormalL, 128, 32, 3);
 native_f!(native_f_long, GLong, 256, 64, 1);
 #[cfg(test)]
 native_f!(native_f_longl, GLongL, 256, 64, 3);
+
+/// Native confirmation for `c18_gen_*` (fast path instead of Kani's playback generator, which
+/// needs tens of minutes for the 256-bucket instance): the generator operations of all five
+/// variants under the counting allocator of the replay build.
+#[cfg(test)]
+#[test]
+fn native_c18_gen() {
+    macro_rules! one {
+        ($t:ty) => {{
+            let before = crate::verif::allocv::native_allocs();
+            let mut g = Generator::<$t>::new();
+            g.update(&[1, 2, 3, 4, 5, 6]);
+            g.update(&[7, 8, 9]);
+            g.update(&[]);
+            let _ = g.processed_len();
+            let c = g.clone();
+            let mut opt = 0u32;
+            while opt < 32 {
+                let mut o = GeneratorOptions::new();
+                o.length_processing_mode(if opt & 1 != 0 {
+                    DataLengthProcessingMode::Conservative
+                } else {
+                    DataLengthProcessingMode::Optimistic
+                })
+                .pure_integer_qratio_computation(opt & 2 != 0)
+                .allow_small_size_files(opt & 4 != 0)
+                .allow_statistically_weak_buckets_half(opt & 8 != 0)
+                .allow_statistically_weak_buckets_quarter(opt & 16 != 0);
+                let r = c.finalize_with_options(&o);
+                core::mem::forget(r);
+                opt += 1;
+            }
+            let r = g.finalize();
+            core::mem::forget(r);
+            assert_eq!(crate::verif::allocv::native_allocs(), before, "heap allocation in generator operations");
+        }};
+    }
+    one!(crate::hashes::Short);
+    one!(crate::hashes::Normal);
+    one!(crate::hashes::NormalWithLongChecksum);
+    one!(crate::hashes::Long);
+    one!(crate::hashes::LongWithLongChecksum);
+}
